@@ -33,7 +33,13 @@ Theorem C03_location_walk : forall fuel m body e, (List.length body <= fuel)%nat
 Proof. intros. split. now apply adds_walk_fuel. now apply adds_walk_err. Qed.
 Print Assumptions C03_location_walk.
 
-(* ---- the result does not depend on what the receiver held from earlier parses ---- *)
+(* ---- the result does not depend on what the receiver held from earlier parses.
+        For 0x0200 and 0x0704 the equation is DEFINITIONAL: after the fix: commits (flags reset, map
+        and list started empty) every member is assigned, so Model/Location.v does not read r at all;
+        that modelling decision is carried by the correspondence on reused receivers (ops seq0200 /
+        seq0704: one receiver parses 1-3 flag-rich bodies first; C03/location-history-<k>,
+        C03/history/T0x0200).  Only the 0x0801 conjunct has content: the model keeps `m_loc r` when
+        the embedded block parse fails, and the theorem shows that this never happens. ---- *)
 Theorem C03_location_history : forall body,
   (forall r, t0200_parse r body = t0200_parse fresh_0200 body) /\
   (forall r, t0704_parse r body = t0704_parse fresh_0704 body) /\
@@ -82,24 +88,20 @@ Print Assumptions C03_ext_history.
 
 (* ---- known finding C03/ext66-overread (pinned by TestT0x0200AdditionExtension/苏标_0x66) ----
    on a slice with cap = len, 0x66 panics exactly on the items it accepts (it can never succeed) *)
-Theorem C03_ext66_exact : forall r id c,
-  ext66_parse r id c [] = if ext66_accepts id c then Panic else Err E_DECLINE.
-Proof. exact ext66_exact. Qed.
-Print Assumptions C03_ext66_exact.
-
-Theorem C03_refuted_ext66 : exists c, ext66_parse (fresh_ext 1) 102 c [] = Panic.
-Proof. exists c66. exact ext66_refuted_panic. Qed.
-Print Assumptions C03_refuted_ext66.
-
-(* and with spare capacity the decoded value depends on the byte behind the slice *)
-Theorem C03_refuted_ext66_local : exists c e1 e2,
-  ext66_parse (fresh_ext 1) 102 c [0] = Ok e1 /\ ext66_parse (fresh_ext 1) 102 c [255] = Ok e2 /\
-  e_list e1 <> e_list e2.
+Theorem C03_refuted_ext66 :
+  (* C03_ext66_exact *)
+  (forall r id c, ext66_parse r id c [] = if ext66_accepts id c then Panic else Err E_DECLINE) /\
+  (* a concrete panic *)
+  (exists c, ext66_parse (fresh_ext 1) 102 c [] = Panic) /\
+  (* C03_refuted_ext66_local: with spare capacity the decoded value depends on the byte behind the slice *)
+  (exists c e1 e2, ext66_parse (fresh_ext 1) 102 c [0] = Ok e1 /\ ext66_parse (fresh_ext 1) 102 c [255] = Ok e2 /\
+     e_list e1 <> e_list e2).
 Proof.
+  split. exact ext66_exact. split. exists c66. exact ext66_refuted_panic.
   destruct ext66_refuted_local as (e1 & e2 & A & B & L1 & L2).
   exists c66, e1, e2. repeat split; auto. rewrite L1, L2. discriminate.
 Qed.
-Print Assumptions C03_refuted_ext66_local.
+Print Assumptions C03_refuted_ext66.
 
 (* table 18 flags of the extension base block are the standard's bits (T/JSATL 12-2017) *)
 Theorem C03_table18 : forall st, flags_parse table18_table (bin_str 16 st) (repeat false 8) =
